@@ -204,8 +204,12 @@ def edge_coverage(A, g):
             continue
         if n.func.attr == 'add_edge' and len(n.args) >= 2:
             nest = [p for p in _parents(n) if isinstance(p, ast.For)]
-            inner = next((lp for lp in nest if 'input_tasks' in src(lp.iter)), None)
-            outer = next((lp for lp in nest if 'self.tasks' in src(lp.iter) and 'input_tasks' not in src(lp.iter)), None)
+
+            def _it(lp):
+                # what the loop iterates, with a single-assignment local (`all_tasks = self.tasks.values()`) replaced by its definition
+                return src(subst_single_assign(A, g, lp.iter)) if isinstance(lp.iter, ast.Name) else src(lp.iter)
+            inner = next((lp for lp in nest if 'input_tasks' in _it(lp)), None)
+            outer = next((lp for lp in nest if 'self.tasks' in _it(lp) and 'input_tasks' not in _it(lp)), None)
             if inner is None and outer is not None:
                 # the inputs were collected into a local list first: [(inp, task) for inp in task.input_tasks.values() if isinstance(inp, Task)]
                 for lp in nest:
